@@ -2,7 +2,7 @@
 from __future__ import annotations
 
 import ast
-from typing import Dict, List, Optional, Set, Tuple
+from typing import Dict, List, Optional, Sequence, Set, Tuple
 
 from ..core import AnalysisError, FuncNode, Module, Program, RuleResult, dotted, func_params, short, walk_no_nested
 from ..flow import Opaque, reaching
@@ -964,6 +964,67 @@ def readonly_input(prog: Program) -> RuleResult:
     return res
 
 
+
+def _writes_through(fn: ast.AST, roots: Sequence[str]) -> Tuple[List[ast.AST], Set[str]]:
+    """statements of `fn` that write into an object reached from one of the names `roots` (or an alias)"""
+    alias: Set[str] = set(roots)
+    changed = True
+    while changed:
+        changed = False
+        for node in walk_no_nested(fn):
+            if isinstance(node, ast.Assign) and len(node.targets) == 1 and isinstance(node.targets[0], ast.Name):
+                nm = node.targets[0].id
+                if nm not in alias and _reaches_input(node.value, alias):
+                    alias.add(nm)
+                    changed = True
+    bad: List[ast.AST] = []
+    for node in walk_no_nested(fn):
+        if isinstance(node, (ast.Assign, ast.AugAssign, ast.Delete)):
+            tgts = node.targets if isinstance(node, (ast.Assign, ast.Delete)) else [node.target]
+            for tgt in tgts:
+                if isinstance(tgt, (ast.Subscript, ast.Attribute)) and _root_name(tgt) in alias:
+                    bad.append(node)
+        elif isinstance(node, ast.Call) and isinstance(node.func, ast.Attribute) and node.func.attr in MUTATORS:
+            if _root_name(node.func.value) in alias:
+                bad.append(node)
+    return bad, alias
+
+
+def parse_readonly(prog: Program) -> RuleResult:
+    res = RuleResult(
+        "PARSE-READONLY",
+        "parsing does not rewrite what it parses: `from_dict` / `_from_dict` and the mapping parsers make no store, "
+        "`pop`, `update`, `del` ... through their dictionary argument or an alias of one of its entries - the "
+        "dictionary is what `to_dict` produced and is compared, dumped or parsed again afterwards, and a parsed object "
+        "must not share a mutable entry with it",
+    )
+    n = 0
+    for modname in ("model.reconciliation", "model.tree_mapping", "model.synteny"):
+        mod = prog.module(modname)
+        for qual, fn in prog.defs(modname).items():
+            if not isinstance(fn, FuncNode):
+                continue
+            last = qual.split(".")[-1]
+            if not (last in ("from_dict", "_from_dict") or last.startswith("parse_")):
+                continue
+            params = [a.arg for a in fn.args.args if a.arg not in ("self", "cls")]
+            # the dictionary argument: `data`, or the last parameter of a parser
+            roots = [p for p in params if p in ("data", "mapping", "raw")] or params[-1:]
+            if not roots:
+                continue
+            n += 1
+            construct = f"{modname}:{qual}/argument-readonly"
+            bad, alias = _writes_through(fn, roots)
+            # an alias that is stored in the result while being an entry of the argument is shared state
+            if bad:
+                res.fail(construct, f"`{short(bad[0], 70)}` rewrites the dictionary being parsed (through {sorted(alias)}): it no longer equals what was serialised, and the parsed object shares the entry", mod, bad[0])
+            else:
+                res.ok(construct, f"no write through {sorted(alias)}")
+    if n < 5:
+        raise AnalysisError(f"PARSE-READONLY: only {n} parsing functions found")
+    return res
+
+
 def _reaches_input(val: ast.AST, alias: Set[str]) -> bool:
     """The value is (part of) the input object itself, not a copy / fresh result."""
     if isinstance(val, ast.Name):
@@ -1313,6 +1374,7 @@ RULES = {
     "ITERATOR-REUSE": iterator_reuse,
     "MEMO-KEY": memo_key,
     "READONLY-INPUT": readonly_input,
+    "PARSE-READONLY": parse_readonly,
     "NO-PRUNED-TRAVERSAL": no_pruned_traversal,
     "FIELD-COPY-COMPLETE": field_copy_complete,
     "EQ-BY-FIELDS": eq_by_fields,
